@@ -4,7 +4,9 @@ From Grex Require Import Base.Str Model.Config Model.Cluster Model.Dfa Model.Exp
   Model.Pipeline.
 From Grex Require Import Proofs.Lang Proofs.Spec Proofs.PrintShape Proofs.Construction
   Proofs.PropsGlue.
-From Grex Require Import Engine.Syntax Engine.Parse Engine.Sem Engine.Exec.
+From Grex Require Import Engine.Syntax Engine.Parse Engine.Sem Engine.Exec Engine.Prio.
+From Coq Require Import Sorted.
+From Grex Require Import Proofs.PrioSound Proofs.PrioSearch.
 From Grex Require Import Proofs.PrintParseNum Proofs.PrintParseDefs Proofs.PrintParseXTok
   Proofs.SearchProps Proofs.PropsGlueE2E.
 
@@ -215,6 +217,113 @@ Proof.
   exists r. split; [exact Hr|]. split; [exact Hs|]. split; [exact He|exact Ha].
 Qed.
 
+(* ---------------------------------------------------------------------------------------- *)
+(* LEFTMOST-FIRST PRIORITY (Engine/Prio.v): what `Regex::find` REPORTS.  pends lists the ends of
+   the matches from a position in the order a backtracking matcher (the crate's PikeVM) finds
+   them; find_first is the least start with a match and the FIRST end from there.  The model is
+   run against the real PikeVM on every C08 run (exact spans). *)
+
+(* the priority list and the matching relation have the same members, for every pattern *)
+Theorem C08_priority_same_matches :
+  forall (lit cls : cp -> cp -> Prop) (lit_b cls_b : cp -> cp -> bool)
+         (range_b : cp -> cp -> cp -> bool),
+  (forall c x, lit_b c x = true <-> lit c x) ->
+  (forall l x, cls_b l x = true <-> cls l x) ->
+  (forall lo hi x,
+     range_b lo hi x = true <-> exists c, (lo <= c)%N /\ (c <= hi)%N /\ lit c x) ->
+  forall h r i j, In j (pends lit_b cls_b range_b h r i) <-> m lit cls h r i j.
+Proof. exact pends_spec. Qed.
+
+(* the reported span is a match from the least start that admits one *)
+Theorem C08_find_first_sound :
+  forall (lit cls : cp -> cp -> Prop) (lit_b cls_b : cp -> cp -> bool)
+         (range_b : cp -> cp -> cp -> bool),
+  (forall c x, lit_b c x = true <-> lit c x) ->
+  (forall l x, cls_b l x = true <-> cls l x) ->
+  (forall lo hi x,
+     range_b lo hi x = true <-> exists c, (lo <= c)%N /\ (c <= hi)%N /\ lit c x) ->
+  forall h r i j, find_first lit_b cls_b range_b h r = Some (i, j) ->
+    m lit cls h r i j /\ (forall i' j', (i' < i)%nat -> ~ m lit cls h r i' j').
+Proof. exact find_first_spec. Qed.
+
+Theorem C08_find_first_none :
+  forall (lit cls : cp -> cp -> Prop) (lit_b cls_b : cp -> cp -> bool)
+         (range_b : cp -> cp -> cp -> bool),
+  (forall c x, lit_b c x = true <-> lit c x) ->
+  (forall l x, cls_b l x = true <-> cls l x) ->
+  (forall lo hi x,
+     range_b lo hi x = true <-> exists c, (lo <= c)%N /\ (c <= hi)%N /\ lit c x) ->
+  forall h r, find_first lit_b cls_b range_b h r = None <-> forall i j, ~ m lit cls h r i j.
+Proof. exact find_first_none. Qed.
+
+(* with $ in place, `find` on a test case that is matched in full reports the whole test case *)
+Theorem C08_find_first_with_dollar :
+  forall (lit cls : cp -> cp -> Prop) (lit_b cls_b : cp -> cp -> bool)
+         (range_b : cp -> cp -> cp -> bool),
+  (forall c x, lit_b c x = true <-> lit c x) ->
+  (forall l x, cls_b l x = true <-> cls l x) ->
+  (forall lo hi x,
+     range_b lo hi x = true <-> exists c, (lo <= c)%N /\ (c <= hi)%N /\ lit c x) ->
+  forall c (e : expr) (t : str),
+  f_no_end c = false ->
+  matches_whole lit_b cls_b range_b t (top_rast c e) = true ->
+  find_first lit_b cls_b range_b t (top_rast c e) = Some (0%nat, length t).
+Proof. exact find_first_with_dollar. Qed.
+
+(* without $: outside the class of known finding K2 (no proper prefix of t in the language)
+   `find` reports the whole test case *)
+Theorem C08_find_first_prefix_free :
+  forall (lit cls : cp -> cp -> Prop) (lit_b cls_b : cp -> cp -> bool)
+         (range_b : cp -> cp -> cp -> bool),
+  (forall c x, lit_b c x = true <-> lit c x) ->
+  (forall l x, cls_b l x = true <-> cls l x) ->
+  (forall lo hi x,
+     range_b lo hi x = true <-> exists c, (lo <= c)%N /\ (c <= hi)%N /\ lit c x) ->
+  forall c (gap : Prop) (e : expr) (t : str),
+  printable c -> (gap -> forall c0 x, surrogate c0 -> ~ lit c0 x) ->
+  wf_print_gen gap e -> f_no_end c = true ->
+  L_expr lit cls e t ->
+  (forall p, proper_prefix p t -> ~ L_expr lit cls e p) ->
+  find_first lit_b cls_b range_b t (top_rast c e) = Some (0%nat, length t).
+Proof. exact find_first_prefix_free. Qed.
+
+(* priority laws: an alternation reports its FIRST alternative that matches ... *)
+Theorem C08_first_end_alt :
+  forall (lit_b cls_b : cp -> cp -> bool) (range_b : cp -> cp -> cp -> bool) h a b i,
+  first_end lit_b cls_b range_b h (RAlt a b) i =
+  match first_end lit_b cls_b range_b h a i with
+  | Some j => Some j
+  | None => first_end lit_b cls_b range_b h b i
+  end.
+Proof. exact first_end_alt. Qed.
+
+(* ... so a plain alternation of words (the shape of the last-resort fallback) reports the first
+   word, in list order, that is a prefix of the haystack *)
+Theorem C08_alternation_first_prefix :
+  forall (lit_b cls_b : cp -> cp -> bool) (range_b : cp -> cp -> cp -> bool) ws h i,
+  first_end lit_b cls_b range_b h (alts ws) i =
+  option_map (fun w => (i + length w)%nat) (find (fun w => prefix_at_b lit_b w h i) ws).
+Proof. exact first_end_alts. Qed.
+
+(* "alternatives ordered by descending length so that longer test cases are tried first": for
+   distinct words sorted by length descending, every word is reported whole ... *)
+Theorem C08_alternation_sorted_whole :
+  forall (cls_b : cp -> cp -> bool) (ws : list str) (t : str),
+  StronglySorted (fun a b : str => (length b <= length a)%nat) ws ->
+  NoDup ws -> In t ws ->
+  first_end lit_cs cls_b range_cs t (alts ws) 0 = Some (length t).
+Proof. exact first_end_alts_sorted. Qed.
+
+(* ... and an earlier alternative that is a proper prefix of t is what `find` reports instead
+   (the mechanism of known finding K2) *)
+Theorem C08_alternation_shorter_first :
+  forall (cls_b : cp -> cp -> bool) (ws1 : list str) (w : str) (ws2 : list str) (t : str),
+  Forall (fun v => prefix_at_b lit_cs v t 0 = false) ws1 ->
+  prefix_at_b lit_cs w t 0 = true -> (length w < length t)%nat ->
+  first_end lit_cs cls_b range_cs t (alts (ws1 ++ w :: ws2)) 0 = Some (length w)
+  /\ first_end lit_cs cls_b range_cs t (alts (ws1 ++ w :: ws2)) 0 <> Some (length t).
+Proof. exact first_end_alts_shorter. Qed.
+
 Print Assumptions C08_anchors_syntax.
 Print Assumptions C08_body_invariant.
 Print Assumptions C08_language_invariant.
@@ -231,3 +340,12 @@ Print Assumptions C08_build_search_any.
 Print Assumptions C08_find_leftmost_with_dollar.
 Print Assumptions C08_find_leftmost_prefix_free.
 Print Assumptions C08_anchors_ast.
+Print Assumptions C08_priority_same_matches.
+Print Assumptions C08_find_first_sound.
+Print Assumptions C08_find_first_none.
+Print Assumptions C08_find_first_with_dollar.
+Print Assumptions C08_find_first_prefix_free.
+Print Assumptions C08_first_end_alt.
+Print Assumptions C08_alternation_first_prefix.
+Print Assumptions C08_alternation_sorted_whole.
+Print Assumptions C08_alternation_shorter_first.
